@@ -206,10 +206,12 @@ def cbmc_cmd(job, gb, extra=()):
     c += (SAFETY_FLAGS if flags is None else flags)
     c += job.get("cbmc_flags", [])
     if job.get("unwind") is not None:
-        c += ["--unwind", str(job["unwind"]), "--unwinding-assertions"]
+        c += ["--unwind", str(job["unwind"])]
+        if not job.get("no_unwinding_assertions"):      # bounded EXPLORATION (longer executions cut, level must be "bounded")
+            c += ["--unwinding-assertions"]
     for u in job.get("unwindset", []):
         c += ["--unwindset", u]
-    if job.get("unwindset") and job.get("unwind") is None:
+    if job.get("unwindset") and job.get("unwind") is None and not job.get("no_unwinding_assertions"):
         c += ["--unwinding-assertions"]
     solver = job.get("solver", "default")
     if solver in ("cvc5", "z3"):
@@ -346,7 +348,8 @@ def run_job_once(job, tier, verbose=False, keep=None):
             raise MachineryError("loop contract was not applied (no loop_invariant_step obligation)")
         if res["reach_total"] == 0:
             raise MachineryError("job has no REACH (vacuity) assertion")
-        if res["reach_ok"] != res["reach_total"]:
+        # vacuity only matters for a PASS: when obligations failed, a code change may well have made an outcome unreachable
+        if res["reach_ok"] != res["reach_total"] and not [f for f in res["failed"] if not f.get("instr")]:
             raise MachineryError("vacuity: unreachable REACH assertions: %s" % res.get("unreachable"))
         if res["obligations"] < job.get("min_obligations", 1):
             raise MachineryError("only %d obligations generated, expected >= %d" % (res["obligations"], job.get("min_obligations", 1)))
